@@ -309,3 +309,180 @@ def _lhs_checked(fn, lhs):
     if n["k"] == "UnaryOperator" and n["op"] == "*":
         return True, "stored through an out-parameter"
     return False, "stored in " + fn.text(l)
+
+
+OPTION_GETTERS = ("mi_option_get", "mi_option_is_enabled", "_mi_option_get_fast", "mi_option_get_clamp", "mi_option_get_size")
+
+
+def is_option_get(fn, i, optname):
+    j = fn.strip(i)
+    n = fn.nodes[j]
+    if n["k"] != "CallExpr" or n.get("callee") not in OPTION_GETTERS or not n["args"]:
+        return False
+    a = fn.strip(n["args"][0])
+    return fn.nodes[a]["k"] == "DeclRefExpr" and fn.nodes[a]["n"] == optname
+
+
+def mentions_option(fn, i, optname):
+    return any(fn.nodes[x]["k"] == "CallExpr" and is_option_get(fn, x, optname) for x in fn.walk(i))
+
+
+def var_of(fn, i):
+    """declaration id if expression i is (a wrapper around) a local/param reference, else None"""
+    j = fn.strip(i)
+    n = fn.nodes[j]
+    if n["k"] == "DeclRefExpr" and n["dk"] in ("local", "parm"):
+        return n["d"]
+    return None
+
+
+def values_of(fn, i, depth=3):
+    """the expression i plus, when i is a single-assignment style local, the right-hand sides that define it"""
+    out = [fn.strip(i)]
+    d = var_of(fn, i)
+    if d is not None and depth > 0:
+        for a, rhs, op in fn.var_defs(d):
+            if rhs is not None and op in ("=", "decl"):
+                out.extend(values_of(fn, rhs, depth - 1))
+    return out
+
+
+def can_reach_call(fn, start, callee_pred):
+    """True if from point `start` some path executes a call satisfying callee_pred(node)"""
+    cfg = fn.cfg
+    for p in cfg.reach([start]):
+        e = cfg.elem_at(p)
+        if e is not None and fn.nodes[e]["k"] == "CallExpr" and callee_pred(fn.nodes[e]):
+            return True
+    return False
+
+
+def conjuncts(fn, i):
+    """flatten a && b && c (through wrappers and single-definition bool locals) into leaf expressions"""
+    j = fn.strip(i)
+    n = fn.nodes[j]
+    if n["k"] == "BinaryOperator" and n["op"] == "&&":
+        return conjuncts(fn, n["c"][0]) + conjuncts(fn, n["c"][1])
+    return [j]
+
+
+def never_after(fn, call, d, fields_only=True):
+    """member accesses `d->...` that can execute after `call` returns, before d is re-assigned (P1 never-after)"""
+    cfg = fn.cfg
+    start = cfg.after(call)
+
+    def kills(e):
+        n = fn.nodes[e]
+        if n["k"] == "BinaryOperator" and n["op"] == "=" and fn.is_ref(n["c"][0], d):
+            return True
+        if n["k"] == "DeclStmt" and any(dd["d"] == d for dd in n["decls"]):
+            return True
+        return False
+    bad = []
+    for p in cfg.reach([start], avoid=kills):
+        e = cfg.elem_at(p)
+        if e is None:
+            continue
+        n = fn.nodes[e]
+        if n["k"] == "MemberExpr" and n["arrow"] and fn.is_ref(n["c"][0], d):
+            # an assignment `d = ...` whose RHS is being evaluated does not reference d->; fine
+            bad.append(e)
+        elif n["k"] == "UnaryOperator" and n["op"] == "*" and fn.is_ref(n["c"][0], d):
+            bad.append(e)
+    return bad
+
+
+def precedes(fn, through, target_node, starts=None, edge_ok=None):
+    """None if every path from entry to target_node executes an element satisfying through; else witness"""
+    cfg = fn.cfg
+    t = cfg.pt(target_node)
+    return cfg.must_pass(starts or [cfg.entry], [t], through, edge_ok=edge_ok)
+
+
+def followed_by(fn, node, through, edge_ok=None):
+    """None if every path from just after `node` to a function exit executes an element satisfying through"""
+    cfg = fn.cfg
+    return cfg.must_pass([cfg.after(node)], cfg.exit_points(), through, edge_ok=edge_ok)
+
+
+def field_is(fn, e, fld):
+    j = fn.strip(e)
+    n = fn.nodes[j]
+    return n["k"] == "MemberExpr" and n["fld"] == fld
+
+
+def fact_field_true(fn, fld):
+    """edge fact: `x->fld` is true / non-zero"""
+    return lambda e, pol: isinstance(e, int) and fact_nonnull(fn, e, pol, lambda j: fn.nodes[j]["k"] == "MemberExpr" and fn.nodes[j]["fld"] == fld)
+
+
+def fact_field_false(fn, fld):
+    return lambda e, pol: isinstance(e, int) and fact_null(fn, e, pol, lambda j: fn.nodes[j]["k"] == "MemberExpr" and fn.nodes[j]["fld"] == fld)
+
+
+def fact_field_eq(fn, fld, value):
+    """edge fact: `x->fld == value` (value: int constant)"""
+    def f(e, pol):
+        if not isinstance(e, int):
+            return False
+        c = norm_cmp(fn, e, pol)
+        if c is None or c[0] != "==":
+            return False
+        for a, b in ((c[1], c[2]), (c[2], c[1])):
+            if field_is(fn, a, fld) and fn.cv(b) == value:
+                return True
+        return False
+    return f
+
+
+def fact_call_true(fn, callee, arg0_d=None):
+    def f(e, pol):
+        if not isinstance(e, int) or not pol:
+            return False
+        j = fn.strip(e)
+        if not is_call(fn, j, callee):
+            return False
+        return arg0_d is None or fn.is_ref(fn.nodes[j]["args"][0], arg0_d)
+    return f
+
+
+def fact_call_false(fn, callee):
+    return lambda e, pol: isinstance(e, int) and (not pol) and is_call(fn, fn.strip(e), callee)
+
+
+def atomic_store_to(fn, fld, min_order=0):
+    """predicate on CFG elements: atomic store (or plain store) to field fld"""
+    def f(e):
+        n = fn.nodes[e]
+        if n["k"] == "AtomicExpr" and n["aop"] in ("store", "exchange") and fn.mentions_field(n["ptr"], fld):
+            return n.get("ord", 5) >= min_order
+        if n["k"] == "BinaryOperator" and n["op"] == "=" and field_is(fn, n["c"][0], fld):
+            return min_order == 0
+        return False
+    return f
+
+
+def store_field_const(fn, fld, value):
+    def f(e):
+        n = fn.nodes[e]
+        return n["k"] == "BinaryOperator" and n["op"] == "=" and field_is(fn, n["c"][0], fld) and fn.cv(n["c"][1]) == value
+    return f
+
+
+def callers_of(prog, name):
+    return sorted(prog.callers.get(name, ()))
+
+
+def consistent_edges(fn, e, pol):
+    """edge filter for path queries that start on an edge where `e` has truth value `pol`: excludes edges that
+    branch on a textually identical expression the other way (sound only while the operands of e are not re-assigned
+    on the path — callers make the re-assignment a `through`/`avoid` element)"""
+    cfg = fn.cfg
+    txt = fn.text(e)
+
+    def ok(lab, p, q):
+        f = cfg.fact(lab)
+        if f is None:
+            return True
+        return not (fn.text(f[0]) == txt and f[1] != pol)
+    return ok
